@@ -997,7 +997,7 @@ def oracle_converter(rng, n, stats, known):
                 res = series_to_str(s, inplace)
                 holder = s
             else:
-                df = pd.DataFrame({'k': range(len(s)), 'c': s})
+                df = pd.DataFrame({'k': list(range(len(s))), 'c': s}, index=s.index)
                 res = dataframe_column_to_str(df, 'c', inplace, return_col)
                 holder = df['c']
         except Exception as e:   # noqa: BLE001
@@ -1027,6 +1027,9 @@ def oracle_converter(rng, n, stats, known):
                 continue
             if not inplace and [cell(x) for x in holder] != [cell(x) for x in vals]:
                 v.append(viol('C16', 'input modified although inplace=False', case))
+        out_obj = holder if (inplace and not doc_exception) else (res['c'] if isinstance(res, pd.DataFrame) else (res if isinstance(res, pd.Series) else holder))
+        if list(out_obj.index) != list(s.index):
+            v.append(viol('C16', 'row labels of the converted column differ from the input\'s', case, list(s.index)[:6], list(out_obj.index)[:6]))
         if [None if is_missing(x) else x for x in got] != exp_vals:
             v.append(viol('C16', 'converted values differ from str(int(v)) / str(v) / missing', case, exp_vals[:6], [None if is_missing(x) else x for x in got][:6]))
     # inplace + return_col rejected
@@ -1223,4 +1226,33 @@ def oracle_suffix_exhaustive(universe, stats):
                     if len(v) > 10:
                         return v
     stats.hit('oracle.suffix_exhaustive.calls', cnt)
+    return v
+
+
+def oracle_split_exhaustive(nmax, kmax, stats):
+    """C10: the REAL split_table yields a contiguous partition for every (table length <= nmax, 1 <= k <= min(len, kmax)),
+    exhaustively; and get_num_processes_to_launch follows its documented rule"""
+    from py_stringsimjoin.utils import generic_helper as GH
+    v = []
+    cnt = 0
+    for n in range(0, nmax + 1):
+        table = list(range(n))
+        for k in range(1, min(n, kmax) + 1):
+            cnt += 1
+            try:
+                parts = GH.split_table(table, k)
+            except Exception as e:    # noqa: BLE001
+                v.append(viol('C10', 'split_table(%d rows, %d splits) raised %s' % (n, k, type(e).__name__), {'entry': 'split_table', 'len': n, 'k': k}))
+                continue
+            flat = [x for p in parts for x in p]
+            if len(parts) != k or flat != table:
+                v.append(viol('C10', 'split_table(%d rows, %d splits) is not a contiguous partition (%d rows survive)' % (n, k, len(flat)),
+                              {'entry': 'split_table', 'len': n, 'k': k}, n, len(flat)))
+                if len(v) > 10:
+                    return v
+    for nj in list(range(-40, 41)):
+        exp = max(nj if nj >= 0 else common.CPU + 1 + nj, 1)
+        if GH.get_num_processes_to_launch(nj) != exp:
+            v.append(viol('C10', 'get_num_processes_to_launch(%d) = %r, expected %d' % (nj, GH.get_num_processes_to_launch(nj), exp), {'entry': 'num_procs', 'n_jobs': nj}))
+    stats.hit('oracle.split_exhaustive.cases', cnt)
     return v
